@@ -644,7 +644,7 @@ def main():
             write_evidence(prop, a.tier, seed, results, violations, time.time() - t_start,
                            slice_info=slice_info, known_hits=known_hits, inconclusive=inconclusive)
         if a.keep or (rc != 0 and os.environ.get("VERIF_KEEP_FAILED")):
-            keep = os.path.join(SCRATCH_BASE, "regexml-verif-kept-%s" % prop)
+            keep = os.path.join(SCRATCH_BASE, "regexml-verif-kept-%s-%s" % (prop, "only" if a.only else a.tier))
             shutil.rmtree(keep, ignore_errors=True)
             shutil.copytree(logdir, keep)
             shutil.copy(os.path.join(repo_dir, "regexml/src/verif_kani.rs"), keep)
